@@ -3,9 +3,11 @@
   `Mx.Farm.step` and prints one result line per op line.  Import-free apart from Core/Driver.
 -/
 import MxModel.Core.Farm
+import MxModel.Core.FarmLedger
 import MxModel.Driver.Proto
 
 open Mx Mx.Farm Mx.Proto
+open Mx.FarmLedger (L LOp stepL initL sameCol)
 
 namespace Mx.FarmDriver
 
@@ -122,7 +124,27 @@ def showState (s : St) : String :=
   "wks=" ++ " ".intercalate weeks ++ " U " ++ " ".intercalate (s.users.map (showUser s)) ++
   " T " ++ " ".intercalate ((nonces s).filterMap (showTok s)) ++ " " ++ showGhosts s W
 
-def initOf (ws : List String) : St :=
+/-- every user's wallet as the ledger (`Core/FarmLedger.lean`) keeps it: `farming,reward` balances, users in order.
+    The harness prints the REAL ESDT balances (farming token; reward token for dex/farm, the sum of the LOCKED tokens
+    for farm-with-locked-rewards) in the same format. -/
+def showWallets (l : L) : String :=
+  "rw=" ++ ";".intercalate (l.f.users.map fun u => s!"{l.w.getF (sameCol l.f) u},{l.w.rew u}")
+
+def showStateL (l : L) : String := showState l.f ++ " " ++ showWallets l
+
+/-- the faucet the harness runs BEFORE the transaction (`FarmWorld::prefund`): the caller of an `enter` / `enterOB` is
+    topped up to the amount it sends, the caller of `bad farmingAsFarm` to 1000; accounts outside the world are ignored -/
+def prefund (l : L) (ws : List String) : L :=
+  let fundIt (c x : Nat) : L := match stepL l (.fund c x) with
+    | some r => r.1
+    | none => l
+  match ws with
+  | "enter" :: c :: _ :: a :: _ => fundIt (c.toNat?.getD 0) (a.toNat?.getD 0)
+  | "enterOB" :: c :: _ :: a :: _ => fundIt (c.toNat?.getD 0) (a.toNat?.getD 0)
+  | "bad" :: "farmingAsFarm" :: rest => fundIt ((rest.head?.bind String.toNat?).getD 1) 1000
+  | _ => l
+
+def initOf (ws : List String) : L :=
   let kind := if kv ws "kind" = some "fwlr" then Kind.noMint else Kind.mint
   let same := kvNat ws "same" = some 1
   let dsc := (kvNat ws "dsc").getD 1000000000000
@@ -130,7 +152,7 @@ def initOf (ws : List String) : St :=
   let produce := (kvNat ws "produce").getD 1 = 1
   let n := (kvNat ws "users").getD 3
   let e0 := (kvNat ws "epoch0").getD 0
-  Farm.init kind same dsc pb produce ((List.range n).map (· + 1)) e0
+  initL kind same dsc pb produce ((List.range n).map (· + 1)) e0
 
 def view (s : St) : List String → Option String
   | ["calcRewards", u, a, n] => do
@@ -139,25 +161,27 @@ def view (s : St) : List String → Option String
       pure (toString v)
   | _ => none
 
-def handle (s : St) (line : String) : St × Option String :=
+def handle (l : L) (line : String) : L × Option String :=
   match words line with
   | "W" :: rest => (initOf rest, some (" ".intercalate ("W" :: rest)))
   | ["O", n, "upgrade"] =>
       -- the owner re-runs the contract's `upgrade` function on the DEPLOYED farm: `first_week_start_epoch().set_if_empty`
       -- and `try_set_farm_position_migration_nonce` (returns at once: the nonce was set by `init`) — no modelled cell moves
-      (s, some s!"R {n} ok tok=0:0 rew=0 farming=0 b=0 | {showState s}")
+      (l, some s!"R {n} ok tok=0:0 rew=0 farming=0 b=0 | {showStateL l}")
   | "O" :: n :: rest =>
-      match (parseOp rest).bind (step s) with
-      | some (s', o) =>
-          (s', some s!"R {n} ok tok={o.nonce}:{o.amt} rew={o.rew} farming={o.farming} b={o.boosted} | {showState s'}")
-      | none => (s, some s!"R {n} err")
+      -- the faucet runs first and stays even when the transaction fails
+      let l := prefund l rest
+      match (parseOp rest).bind fun op => stepL l (.op op) with
+      | some (l', o) =>
+          (l', some s!"R {n} ok tok={o.nonce}:{o.amt} rew={o.rew} farming={o.farming} b={o.boosted} | {showStateL l'}")
+      | none => (l, some s!"R {n} err")
   | "Q" :: n :: rest =>
-      match view s rest with
-      | some v => (s, some s!"V {n} ok {v}")
-      | none => (s, some s!"V {n} err")
-  | _ => (s, none)
+      match view l.f rest with
+      | some v => (l, some s!"V {n} ok {v}")
+      | none => (l, some s!"V {n} err")
+  | _ => (l, none)
 
 end Mx.FarmDriver
 
 def main : IO Unit :=
-  Mx.Proto.mainLoop (Mx.Farm.init .mint false 1000000000000 1000 true [1, 2, 3] 0) Mx.FarmDriver.handle
+  Mx.Proto.mainLoop (Mx.FarmLedger.initL .mint false 1000000000000 1000 true [1, 2, 3] 0) Mx.FarmDriver.handle
